@@ -48,9 +48,8 @@ def check(ctx):
                 t = N.term(arms[v]["body"], q.arm_syms(arms[v]["pat"]))
                 expect_term(ctx, "C13.1", "arm/" + v, arms[v], t, e, "%s is described from its own children through the transformer" % v)
     DR.expect_golden(ctx, "C13.1", "fields", "desc/fields_type_description", "description::fields_type_description",
-                     "`()` for no fields; `{..}` iff all named, `(..)` iff all unnamed, Err for mixed; every field described in order, comma between fields")
-    DR.expect_golden(ctx, "C13.1", "field", "desc/field_type_description", "description::field_type_description",
-                     "field = resolve(field.ty.id), wrapped in Box<..> iff the recorded type name contains `Box<`, prefixed by `name: ` iff named")
+                     "`()` for no fields; `{..}` iff all named, `(..)` iff all unnamed, Err for mixed; every field described in order, comma between fields; "
+                     "field (private helper looked through) = resolve(field.ty.id), wrapped in Box<..> iff the recorded type name contains `Box<`, prefixed by `name: ` iff named")
     DR.expect_golden(ctx, "C13.1", "variants", "desc/variant_type_def_type_description", "description::variant_type_def_type_description",
                      "`{v1,v2,..}`: every variant in order, comma between variants")
     DR.expect_golden(ctx, "C13.1", "variant", "desc/variant_type_description", "description::variant_type_description", "variant = its own name followed by its own fields (omitted when `()`)")
